@@ -139,7 +139,9 @@ def c02_loop(ctx, max_iter, api):
     except p.ZeroFindingError as e:
         found, err = None, e
     n = len(stub.calls)
-    ctx.check('at_most_max_iterations_trajectories', 1 <= n <= max_iter)
+    ctx.check('at_most_max_iterations_trajectories', 1 <= n <= max_iter, info={'trajectories': n})
+    if n == 0:
+        return          # (no trajectory was fired at all: the other obligations have nothing to look at)
     h_aim = D * M.sin(look)
     last = stub.calls[-1]
     last_err = ctx.abs(heights[-1] - h_aim)
